@@ -64,6 +64,7 @@ def sha(path):
 
 # ------------------------------------------------------------------ specs
 def load_spec(prop):
+    if os.path.join(VERIF, 'obligations') not in sys.path: sys.path.insert(0, os.path.join(VERIF, 'obligations'))
     path = os.path.join(VERIF, 'obligations', prop + '.py')
     if not os.path.exists(path):
         sys.exit('no obligations for ' + prop)
@@ -398,10 +399,12 @@ def do_query(q, tier, seed, validate=True):
                 rec['reason'] = 'bound exceeded: ' + r.get('description', '')[:200]; return rec
             if k == 'unwind' and r.get('status') == 'FAILURE' and not q.ob.get('unwind_is_oracle'):
                 rec['reason'] = 'unwinding bound too small: ' + r.get('property', ''); return rec
+        has_failure = any(r.get('status') == 'FAILURE' and classify(r, q.ob) in ('assertion', 'memsafety') for r in fails)
         if all(w.get('status') == 'FAILURE' for w in wit):
             rec['witness'] = True
             wvals = nondet_values(wit[0].get('trace'))
-        else:
+        elif not has_failure:
+            # (a failing assertion that ends every path also makes the witness unreachable: then the failure is what counts)
             rec['reason'] = 'witness not reachable: the obligation is vacuous'; return rec
         cands = []; unknown = []
         for r in fails:
